@@ -996,3 +996,65 @@ def r9(R):
                       'only one thread holds the commit lock; checked per '
                       'edge, not assumed')
     R.require(len(edges) >= 5, 'only %d lock-order edges found' % len(edges))
+
+
+# ------------------------------------------------------------------ C02.R10
+@rule('C02.R10', 'an invalidated blob drops its cached state like any other '
+      'object: Blob._p_invalidate reaches Persistent._p_invalidate unless '
+      'the blob is a ghost already', props=['C13'], min_instances=1)
+def r10(R):
+    cls = R.prog.cls('ZODB.blob.Blob')
+    f = R.method(cls, '_p_invalidate')
+    g, b, F = R.cfg(f, cls, max_depth=0)
+    R.instance('Blob._p_invalidate')
+    seen = [0]
+
+    def is_super_inval(node):
+        a = node.ast
+        if a is None:
+            return False
+        for c in ast.walk(a):
+            if isinstance(c, ast.Call) and isinstance(
+                    c.func, ast.Attribute) and \
+                    c.func.attr == '_p_invalidate':
+                v = c.func.value
+                if isinstance(v, ast.Call) and isinstance(
+                        v.func, ast.Name) and v.func.id == 'super':
+                    return True
+                if dotted(v) and dotted(v)[-1] == 'Persistent':
+                    return True
+        return False
+
+    def edge(node, st, lab, tgt):
+        done, ghost = st
+        if node.kind == 'test' and lab in ('T', 'F'):
+            for e, truth in implied_atoms(node.ast, lab):
+                if isinstance(e, ast.Compare) and len(e.ops) == 1 and \
+                        dotted(e.left) == ('self', '_p_changed') and \
+                        isinstance(e.comparators[0], ast.Constant) and \
+                        e.comparators[0].value is None:
+                    if isinstance(e.ops[0], ast.Is) == truth:
+                        ghost = True
+        if lab not in ('e', 'eb') and node.kind == 'stmt' and \
+                is_super_inval(node):
+            seen[0] += 1
+            done = True
+        return (done, ghost)
+
+    def at(node, st):
+        done, ghost = st
+        if node.id == g.exit_return and not done and not ghost:
+            return Violation(
+                'Blob._p_invalidate can return without invalidating the '
+                'object although it is not a ghost: the invalidation of the '
+                'committing transaction has been consumed by then, so the '
+                'connection keeps serving the old blob revision next to the '
+                'new state of other objects')
+        return st
+
+    vs, stats = explore(g, (False, False), at=at, edge=edge)
+    R.count(stats)
+    R.require(seen[0] or vs, 'Blob._p_invalidate no longer calls '
+              'Persistent._p_invalidate')
+    for v in vs:
+        R.violation(v.node, v.message, g, v.path)
